@@ -38,6 +38,8 @@
 (*   Snap{}                    the provider returned the initial list      *)
 (*   Create{n,ep}              the balancer asked the factory for a channel *)
 (*   Chan{n,st} OpenDone{n,ok} Held{r} Late{r,n}  environment / no-ops      *)
+(*   OpenRaised{n}             Open() of n's channel raised synchronously   *)
+(*           (the channel is Closed); diagnostic no-op                      *)
 (*   Raised{op} Hang{}         the balancer raised into its caller / spun   *)
 (*           (diagnostic no-ops: the rest of the history is still judged)  *)
 (*   Tmo{r}                    a request parked behind the balancer's open  *)
@@ -46,9 +48,13 @@
 (*           it failed at once, err = "nomembers" | "other" | "none");     *)
 (*           U = <<n, st, out>> for every member the balancer is using,    *)
 (*           sampled just before the choice; st = state of n's channel;    *)
-(*           fresh = 1 iff n's channel was created during this dispatch    *)
+(*           fresh = 1 iff n's channel was created during this dispatch;   *)
+(*           logged at the position of the choice: what the same dispatch  *)
+(*           causes afterwards (aperture adjustment: closes, requests      *)
+(*           failed synchronously by such a close) follows it              *)
 (*   Comp{r,n,kind}            first completion of r (reply, error,        *)
-(*           timeout, fault, failfast), logged before the stack unwinds    *)
+(*           timeout, fault, failfast, closed = failed synchronously by    *)
+(*           the channel's Close()), logged before the stack unwinds        *)
 (*   CloseSeen{n[,x]}          Close() called on n's channel (x = 1: the   *)
 (*           call closed the channel and then raised; diagnostic only)     *)
 (*   End{hasL,L,neg}           end of a step; L = <<n, ld, rm, dn>> is the *)
@@ -114,6 +120,14 @@ StOf(ev)  == IF ev.n \in UIds(ev)
              THEN ev.U[CHOOSE i \in DOMAIN ev.U : ev.U[i][1] = ev.n][2]
              ELSE ev.st
 
+\* Requests outstanding at the MEMBER (endpoint) of node n: C03 speaks of members, and a member for
+\* which the balancer holds several nodes at once (all of them in U) has the requests of all of them
+\* outstanding.  A node that has left the heap (a removed member still draining, an endpoint moved
+\* back to the idle set) is not in U and does not count for the node that replaced it.
+MOut(a, ev, n) ==
+  FoldLeft(LAMBDA acc, u : IF u[1] # n /\ a.node[u[1]].ep = a.node[n].ep THEN acc + a.node[u[1]].out ELSE acc,
+           a.node[n].out, ev.U)
+
 DispCheck(a, ev) ==
   IF ev.n # -1 /\ ev.n \notin Nodes(a) THEN "harness.dispKnownNode"
   ELSE IF ev.hasU = 1 /\ \E i \in DOMAIN ev.U : ev.U[i][1] \notin Nodes(a) THEN "harness.uKnownNode"
@@ -127,12 +141,12 @@ DispCheck(a, ev) ==
   ELSE IF On("C03") /\ ev.hasU = 1 /\ ev.n # -1 /\ ev.n \notin UIds(ev) /\ ev.fresh # 1
        THEN "C03.member"
   \* C03.openLeast: if some member in use is open, the chosen one is open and no
-  \* open member in use has fewer outstanding requests.  (When none is open the
-  \* statement does not prescribe the outcome.)
+  \* open member in use has fewer outstanding requests (counted per member, see MOut).
+  \* (When none is open the statement does not prescribe the outcome.)
   ELSE IF On("C03") /\ ev.hasU = 1 /\ UOpen(ev) # {}
           /\ ~(/\ ev.n # -1
                /\ StOf(ev) = OPEN
-               /\ \A i \in UOpen(ev) : a.node[ev.n].out <= a.node[ev.U[i][1]].out)
+               /\ \A i \in UOpen(ev) : MOut(a, ev, ev.n) <= MOut(a, ev, ev.U[i][1]))
        THEN "C03.openLeast"
   \* C04.noNewTraffic: a removed member receives no new request.
   ELSE IF On("C04") /\ ev.n # -1 /\ a.node[ev.n].left THEN "C04.noNewTraffic"
@@ -202,7 +216,7 @@ ProbeCheck(a, ev) ==
   ELSE "ok"
 
 \* ------------------------------------------------------------------ the machine
-NoOps == {"JoinDone", "Chan", "OpenDone", "Held", "Late", "Raised", "Hang", "Tmo"}
+NoOps == {"JoinDone", "Chan", "OpenDone", "OpenRaised", "Held", "Late", "Raised", "Hang", "Tmo"}
 
 CheckOf(a, ev) ==
   CASE ev.e = "Join" -> "ok"
